@@ -9,7 +9,8 @@ META = {
             "nodes whose right child is missing): success <=> the Lukasiewicz condition (every proper prefix needs at least one more node, the whole string none), and on "
             "success every non-leaf node points to existing later nodes (left[k] = k+1, k < right[k] < n) -- which is the precondition under which node_to_string is verified "
             "(C02). That the Lukasiewicz condition characterises the arity strings of unary-binary trees is the classical bridge lemma (assumed; the oracle of the bounded part "
-            "enumerates by the same condition and is cross-checked against tree counts 1,1,2,4,9,21,51,127). get_allowed_shapes, shape_to_functions and generate_equations "
+            "enumerates by the same condition and is cross-checked against tree counts 1,1,2,4,9,21,51,127). The writers region of generate_equations is verified as well: every tree of a shape is written on exactly one physical line of "
+            "orig_trees/extra_trees (the pprint width rule), into files truncated at the start of the call. get_allowed_shapes and shape_to_functions "
             "are not under contract. Bounded stand-in on the real generation code (not counted as proved): (i) get_allowed_shapes(n) equals the independently enumerated Łukasiewicz-valid arity "
             "strings and check_tree decides validity of every arity string (exhaustive up to the stated n); (ii) the tree list written by "
             "generation equals, as a multiset, the independent enumeration of all labelled trees over the basis, for the six shipped bases and "
@@ -27,6 +28,7 @@ def check(run):
                                            note="nested loops cut at invariants; ghost stack and ghost position function; records as struct of arrays")
     if dst != "unsupported" and D.canary(run, "generation/generator.py", "check_tree", c_generator.check_tree_contract) is False:
         raise RuntimeError("canary verified: engine vacuous on check_tree")
+    wfailed, wsfailed, wfound = D.generation_writers(run, tier, with_bounded=False)
     run.trust("pyvc", "z3 5.1.0")
     run.assume("bridge lemma: need-counter validity <=> preorder arity sequence of exactly one unary-binary tree (classical; used by the oracle)",
                "A-hash: PYTHONHASHSEED fixed to 0 in harness runs")
@@ -57,5 +59,10 @@ def check(run):
     if dfailed and not run.violations:
         from checks.C14 import report_unproved
         report_unproved(run, dfailed, False, "generator.check_tree")
+    if wfailed and not run.violations:
+        from checks.C14 import report_unproved
+        report_unproved(run, wfailed, False, "generator.generate_equations (writers region: one line per tree)")
+    if not run.violations:
+        D.report_structural(run, wsfailed, "frames", "pyvc/frames.py")
     return run.finish("other", META["text"], CHECKER,
                       rule="cases = libraries generated + arity strings decided; distinct_nontrivial = distinct labelled trees compared with the oracle")
